@@ -183,6 +183,10 @@ impl Engine for CrashEngine {
         knobs.insert("nested_points".into(), if thorough { -1 } else { 3 });
         knobs.insert("reopen_again".into(), if property == "C04" { 2 } else { c.below(2) as i64 });
         knobs.insert("probe".into(), (property != "C04") as i64);
+        // the workload ends with a clean drop of the store, which acknowledges everything that
+        // completed before it (C02: "or the store has been dropped cleanly on a healthy device");
+        // crash points may then fall inside or after the close
+        knobs.insert("close_ack".into(), Tape::fresh(mix(seed, 0xC105E)).chance(1, 3) as i64);
         // let time pass between the crash and the restart (so that fresh TTLs have expired)
         knobs.insert("downtime_ms".into(), if ttl_focus { *c.pick(&[0i64, 1_500, 2_500, 6_000, 4_000_000]) } else if ttl { *c.pick(&[0i64, 0, 2_500]) } else { 0 });
         Scenario {
@@ -476,6 +480,17 @@ fn run_workload(sim: &Arc<Sim>, sc: &Scenario, crash_at_call: Option<u64>, repor
         return None;
     }
     report.ops += sc.op_count() as u64;
+    if sc.knob("close_ack", 0) == 1 && !disk.is_dead() {
+        // a clean close may legitimately lose what the device has no room for
+        let fits = !checks::capacity_risk(&env);
+        let invoke = sim.next_event();
+        env.close();
+        let ret = sim.next_event();
+        if !disk.is_dead() && fits {
+            rec.acks.lock().unwrap().push((invoke, ret));
+            report.count("close_acks", 1);
+        }
+    }
     let crashed_inside = disk.is_dead();
     let capture = if crashed_inside {
         disk.take_capture().expect("dead device has a capture")
